@@ -78,7 +78,10 @@ def handle (line : String) : String :=
   | ["keysigned", k] => toString (Spec.documentedSigned k.toNat!)
   | ["sizebits", s] => (match Spec.sizeBits s.toNat! with | some b => toString b | none => "none")
   | ["initime", y, mo, d, h, mi, s] => toHex (Spec.iniTimeUtc y.toNat! mo.toNat! d.toNat! h.toNat! mi.toNat! s.toNat!)
-  | ["rate", r] => let x := Spec.rate r.toNat!; s!"{x.1},{x.2}"
+  | ["rate", r] =>
+      (match r.splitOn "/" with
+       | [a, b] => let x := Spec.rateQ a.toNat! b.toNat!; s!"{x.1},{x.2}"
+       | _ => let x := Spec.rate r.toNat!; s!"{x.1},{x.2}")
   | _ => "bad-line"
 
 def main : IO Unit := do loop handle (← IO.getStdin) (← IO.getStdout)
